@@ -381,6 +381,9 @@ def rules(ctx):
     okn = bool(lp) and src(lp[0].iter) == 'range(len(%s))' % pst
     ctx.inst('R11.2', pk, lp[0] if lp else 'loop', okn, "one result per returned state" if okn else "not every returned state becomes a result")
 
+    from .C14 import registration_parity
+    registration_parity(ctx, 'R11.3')      # labelled branch: labels of to_puso()/to_quso() are < num_binary_variables
+
     # ---------------------------------------------------------------- R11.8 (C)
     state_value_set(ctx, 'R11.8')
     energy_loops(ctx, 'R11.9')
